@@ -27,6 +27,7 @@ fn programs(ctx: &Ctx) -> Vec<(&'static str, u64)> {
     let mut v = vec![];
     for i in 0..f.len("BASE") { v.push(("BASE", i)); }
     for i in 0..f.len("LAB") { v.push(("LAB", i)); }
+    for i in 0..2 { if f.uni.iter().filter(|x| !x.0.contains(':')).nth(i).is_some() { v.push(("UNI", f.uni.iter().position(|x| x.0 == format!("unicode {i}")).unwrap() as u64)); } }
     let stride = ctx.pick(149, 31);
     let mut i = 0; while i < f.len("L1") { v.push(("L1", i)); i += stride; }
     let mut i = 0; while i < f.len("S2") { if f.get("S2", i).is_some() { v.push(("S2", i)); } i += ctx.pick(97, 23); }
